@@ -26,6 +26,10 @@ pub fn generate(r: &mut Rng, tier: &str, emit: &mut dyn FnMut(String)) {
             emit(gen_dropped_receiver(r));
             continue;
         }
+        if i % 10 == 5 {
+            emit(gen_late_timeout(r, "C13"));
+            continue;
+        }
         if i % 10 == 6 {
             emit(gen_cache_only_daemon(r));
             continue;
@@ -254,4 +258,64 @@ pub fn gen_dropped_receiver(r: &mut Rng) -> String {
     now += *r.pick(&[1500u64, 8000]);
     cmds.push(format!("run {}", now));
     format!("sim C13 {}", cmds.join(" ; "))
+}
+
+/// A hostname search with a time-out, and a daemon that is LATE: the clock jumps (`now`) so that
+/// one loop iteration finds both a retransmission of the search and its deadline due (or the
+/// deadline and then the retransmission in the next iteration).  The search must end once
+/// (SearchTimeout, SearchStopped), nothing is asked afterwards and nothing stays queued - the
+/// history runs on for hours and reads the metrics at the end.  Inside the client fragment.
+pub fn gen_late_timeout(r: &mut Rng, tag: &str) -> String {
+    let mut cmds: Vec<String> = vec![format!("daemon {}", ifaces_of(0, false))];
+    cmds.push("ipint 0 100000".to_string());
+    let t0 = 1_000_000u64;
+    let mut now = t0;
+    cmds.push(format!("run {}", now));
+    let host = *r.pick(&["late.local.", "Late.local.", "slow-host.local."]);
+    // retransmissions fall 1 s, 3 s, 7 s, 15 s after the start: deadlines just after / before one
+    let timeout = *r.pick(&[1500u64, 1001, 1003, 999, 3500, 3001, 7500, 7002, 2999, 15_500]);
+    cmds.push(format!("resolve 0 1 {} some {}", hx(host), timeout));
+    cmds.push(format!("run {}", now));
+    if r.chance(1, 3) {
+        // an answer meanwhile (the search goes on until its deadline)
+        let inst = gen_inst(r, 0);
+        let t = Ttls { ptr: 4500, srv: 120, txt: 4500, addr: 120 };
+        let mut recs = recs_of(&inst, &t, true);
+        for rec in recs.iter_mut() {
+            if rec.ty == 1 || rec.ty == 28 {
+                rec.name = host.to_string();
+            }
+        }
+        cmds.push(format!("inject 0 2 1 192.168.1.50 5353 {}", response(&recs[3..], &[])));
+    }
+    // run punctually up to the last retransmission before the deadline, or not at all
+    let reps = [1000u64, 3000, 7000, 15_000];
+    let before: Vec<u64> = reps.iter().cloned().filter(|x| *x < timeout).collect();
+    let punctual_until = match r.below(3) {
+        0 => 0,
+        1 => before.iter().rev().nth(1).cloned().unwrap_or(0),
+        _ => before.last().cloned().unwrap_or(0).saturating_sub(*r.pick(&[1u64, 100, 400])),
+    };
+    if punctual_until > 0 {
+        now = t0 + punctual_until;
+        cmds.push(format!("run {}", now));
+    }
+    // the jump: past the pending retransmission AND the deadline (sometimes just the deadline)
+    now = t0 + timeout + *r.pick(&[0u64, 1, 2, 50, 600, 5000]);
+    cmds.push(format!("now {}", now));
+    cmds.push(format!("run {}", now));
+    if r.chance(1, 3) {
+        cmds.push(format!("stopresolve 0 {}", hx(host)));
+    }
+    if r.chance(1, 4) {
+        cmds.push(format!("resolve 0 2 {} some {}", hx(&host.to_uppercase().replace(".LOCAL.", ".local.")), 2500));
+    }
+    now += *r.pick(&[3000u64, 20_000]);
+    cmds.push(format!("run {}", now));
+    // hours later: every queued re-run would have run, every timer would have fired
+    now += *r.pick(&[4_000_000u64, 9_000_000]);
+    cmds.push(format!("run {}", now));
+    cmds.push("metrics 0 9".to_string());
+    cmds.push(format!("run {}", now));
+    format!("sim {} {}", tag, cmds.join(" ; "))
 }
